@@ -3,7 +3,7 @@ SPECIFICATION Spec
 CONSTANTS
   Real = FALSE
   CharSigned = FALSE
-  Families = {"bin", "un", "cast", "cond", "unev", "nest", "num", "addr"}
+  Families = {"flit", "fround", "bin", "un", "cast", "cond", "unev", "nest", "num", "addr"}
   Level = 1
   Dev_LogicalReturnsOperand = FALSE
   Dev_BoolCastTruncates = FALSE
